@@ -91,6 +91,25 @@ def conv(model, sid, toklife, filters=None, store="memory", probes=(), tags=()):
     return {"id": sid, "cfg": {"filters": fl}, "steps": steps, "tags": list(tags)}
 
 
+def redis_cmd_variants(sc, maxcmd=3):
+    """For a Redis-backed scenario with a store fault 'before', the variants in which a single Redis command of that call fails."""
+    out = []
+    for k in range(1, maxcmd + 1):
+        v = json.loads(json.dumps(sc))
+        hit = False
+        for st in v["steps"]:
+            d = st.get("dir") or {}
+            if d.get("fault") == "before":
+                d["fault"] = "cmd%d" % k
+                hit = True
+        if hit:
+            v["id"] = sc["id"] + "/cmd%d" % k
+            for st in v["steps"]:
+                st.pop("expect", None)
+            out.append(v)
+    return out
+
+
 def finish_all(model):
     cs = []
     for s in model["steps"]:
@@ -202,6 +221,15 @@ def sys_pipeline(prop, W, scenarios, design_checks, assumptions, level="model_ch
     return judge(prop, W, [v], index, level=level, assumptions=assumptions, traces=len(scenarios), samples=samples, extra_cov=extra_cov)
 
 
+def sample(W, items, n):
+    """Deterministic (seeded) sample of at most n items, keeping their order."""
+    if len(items) <= n:
+        return items
+    rnd = random.Random(W.seed * 31 + len(items))
+    idx = sorted(rnd.sample(range(len(items)), n))
+    return [items[i] for i in idx]
+
+
 def export(W, name, **over):
     out, viol = W.tlc_exhaustive("AuthFlowScn", scn_cfg(**over), name, workers=1)
     return W.scenarios_from(out)
@@ -229,8 +257,11 @@ def c01(W, replay=None):
                         Checks="{1,2,3,4}", MaxSid=3, MaxTok=4, **kw)
             for stname in ("memory", "redis"):
                 for i, m in enumerate(ms):
-                    scen.append(conv(m, "c01/%s/%s/%s/%d" % (stname, prep, "-".join(kw), i), 1, store=stname,
-                                     probes=finish_all(m) + [PROBE_APP], tags=["faults"]))
+                    sc = conv(m, "c01/%s/%s/%s/%d" % (stname, prep, "-".join(kw), i), 1, store=stname,
+                              probes=finish_all(m) + [PROBE_APP], tags=["faults"])
+                    scen.append(sc)
+                    if stname == "redis":
+                        scen += redis_cmd_variants(sc, 6 if thorough else 3)
         scen += attacker_family(W, 400 if thorough else 120)
         scen += random_histories(W, 600 if thorough else 60, faults=True)
     return sys_pipeline("C01", W, scen, None, [
@@ -335,7 +366,19 @@ def c09(W, replay=None):
             for stname in ("memory", "redis"):
                 for i, m in enumerate(ms):
                     scen.append(conv(m, "c09/%s/%s/%s/%d" % (stname, prep, "-".join(kw), i), 1, store=stname,
+                                     filters=[F1 if i % 2 == 0 else dict(F1, prefix="tenant-7")],
                                      probes=finish_all(m) + [PROBE_APP], tags=["logout-race"]))
+        # a logout whose removal fails: before / after taking effect, and (Redis) at a single Redis command
+        for prep in ("fresh", "expired", "midLogin"):
+            ms = export(W, "c09-faulty-logout-%s" % prep, Prepared='"%s"' % prep, Target=1, MaxLogouts=1, MaxFaults=1, MaxInFlight=1,
+                        Checks="{1,2,3,4}", MaxSid=3, MaxTok=4, TokLife=1, Kinds='{"logout"}')
+            for stname in ("memory", "redis"):
+                for i, m in enumerate(ms):
+                    sc = conv(m, "c09/faulty-logout/%s/%s/%d" % (stname, prep, i), 1, store=stname,
+                              probes=finish_all(m) + [PROBE_APP], tags=["logout-fault"])
+                    scen.append(sc)
+                    if stname == "redis":
+                        scen += redis_cmd_variants(sc)
         scen += logout_histories(W, 300 if thorough else 40)
     return sys_pipeline("C09", W, scen, None, [
         "interleavings are at store-call / token-endpoint-call / key-lookup granularity (the gates of the harness)",
@@ -399,6 +442,13 @@ def c02(W, replay=None):
     if not replay:
         design_mc(W, "c02-design", ["TokensOnlyUnderIssued", "TokensFromOwnLogin"])
         scen = family(W, "C02")
+        # a forged refresh answer racing with a second check on the same session, at gate granularity
+        ms = export(W, "c02-forged-refresh-race", Prepared='"expired"', Target=1, MaxApps=2, MaxInFlight=2, MaxFaults=1,
+                    Checks="{1,2,3,4,5}", MaxSid=4, MaxTok=5, TokLife=1, Kinds='{"app"}')
+        ms = [m for m in ms if any(s.get("ans") == "badToken" for s in m["steps"])]
+        ms = sample(W, ms, 1500 if W.tier == "thorough" else 120)
+        for stname in ("memory", "redis"):
+            scen += [conv(m, "c02/race/%s/%d" % (stname, i), 1, store=stname, probes=finish_all(m) + [PROBE_APP]) for i, m in enumerate(ms)]
         if W.tier == "thorough":
             scen += random_histories(W, 800, faults=True)
     return sys_pipeline("C02", W, scen, None, ASSUME_SYS + ["the strength of jws.Verify itself is trusted; classes are the enumerated grammar and its rendered variants"], replay=replay)
